@@ -213,6 +213,26 @@ fn walk(ctx: &Ctx, shard: usize, tally: &Tally, p: Prog, st: &Setup, input: &[u8
 pub fn run(ctx: &Ctx, _replay: Option<&str>) {
     let tally = Tally { runs: AtomicU64::new(0), steps: AtomicU64::new(0), in_class: AtomicU64::new(0), outside: AtomicU64::new(0), known_reported: AtomicU64::new(0) };
     let root = Rng::new(ctx.seed ^ 0xC33);
+    // ---- the two witnesses of C33_refuted (coq/proofs/LockProofs.v: wit_state, wit_kb, wit_ds), replayed literally
+    for (name, idx, lock, want_rec, want_q, want_ds) in [
+        ("witness_free", usize::MAX, (false, false), vec![65u16], vec![], vec![65u8]),
+        ("witness_kb", 4usize, (true, false), vec![0u16], vec![65u8], vec![0u8]),
+        ("witness_ds", 13usize, (false, true), vec![65u16], vec![], vec![]),
+    ] {
+        let mut st = setup_for(Prog::GetcOut, &[65], &[], false, false);
+        st.regs = [(0, 0xFFFF); 8];
+        let mut v = vec![];
+        if idx != usize::MAX { v = vec![(false, false); idx + 1]; v[idx] = lock; }
+        let t = run_sched(&st, &Sched::Fixed(&v), &mut Rng::new(0), 100);
+        let (inp, out) = t.run.case();
+        ctx.case("sim.run", &inp, &out);
+        let ok = t.halted && t.run.steps() == 17 && t.received == want_rec && kb_queue(&t.run.m) == want_q && ds_buf(&t.run.m) == want_ds && (idx == usize::MAX) != t.in_class;
+        if !ok {
+            ctx.fail("C33", "witness_not_reproduced", format!("{name}: the implementation does not behave as the Coq witness: steps {} received {:?} queue {:?} display {:?} in_class {}",
+                t.run.steps(), t.received, kb_queue(&t.run.m), ds_buf(&t.run.m), t.in_class), t.run.replay());
+        }
+        ctx.stat("witness_replays", 1);
+    }
     // ---- exhaustive part: short inputs
     // mode 0: every placement of one (and, with `pairs`, two) locked boundaries over all boundaries, 3 lock kinds each;
     // mode 1: tree walk over the device accesses with at most `k` locked accesses
